@@ -343,10 +343,11 @@ def check(repo):
     # ------------------------------------------------------------------ R8.4 parameter-dependent agreements hold for every configuration
     r4 = Rule("R8.4", "agreements that depend on configuration parameters hold symbolically, i.e. for every accepted configuration")
     rules.append(r4)
-    from . import c01, c03, c05
+    from . import c01, c03, c05, c17
     for mod, rid, what in ((c01, "R1.1", "label / key derivations of set-up vs token / search"), (c01, "R1.2", "block geometry written vs parsed"),
                            (c01, "R1.3", "Pi2Lev case bounds vs block capacities"), (c01, "R1.4", "capacities, divisors and level choice"),
-                           (c01, "R1.5", "scans of index data under non-default locality"), (c03, "R3.1", "wire-format field lengths"), (c05, "R5.1", "real vs filler entry lengths")):
+                           (c01, "R1.5", "scans of index data under non-default locality"), (c03, "R3.1", "wire-format field lengths"), (c05, "R5.1", "real vs filler entry lengths"),
+                           (c17, "R17.1", "block codec under the configured block sizes")):
         for rr in mod.check(repo):
             if rr.id != rid:
                 continue
